@@ -460,14 +460,16 @@ theorem SegRun.genSet {c : Cls} {e : Enc} {h0 : Bytes} {lay layE : Layout} {orde
 /-- **save_twice_runs** (any class; flat or nested segments; `FrontOk`): if `save` succeeds and the
     side conditions `ResaveOkR` hold along its layout (no F13 trigger, ELF32 fits, no wrap-around of
     the cursor), then a second `save` of the resulting object into the same initial stream *succeeds
-    and returns exactly the same result* — no hypothesis about the second save.  By-product: every
-    member of a segment of the saved object that is not SHT_NULL has its address marked as set. -/
+    and returns exactly the same result* — no hypothesis about the second save.  By-products: every
+    member of a segment of the saved object that is not SHT_NULL has its address marked as set, and every
+    segment its offset. -/
 theorem save_twice_runs {o : Obj} {os : OStream} {r : SaveRes} {hd : Bytes}
     (hh : o.hdr = some hd) (hl : ehdrSize o.cls ≤ hd.length) (hidx : SegIdxOk o.segs) (hz : FrontOk o.segs)
     (hrs : ResaveOkR o hd) (hs : save o os = .ok r) (hok : r.ok = true) :
     save r.obj os = .ok r ∧
-    ∀ g ∈ r.obj.segs, ∀ idx ∈ g.secs, ∀ b, r.obj.secs[idx.toNat]? = some b → wsd_is_null b.stype = false →
-      b.addrSet = true := by
+    (∀ g ∈ r.obj.segs, ∀ idx ∈ g.secs, ∀ b, r.obj.secs[idx.toNat]? = some b → wsd_is_null b.stype = false →
+      b.addrSet = true) ∧
+    ∀ g ∈ r.obj.segs, g.offsetSet = true := by
   obtain ⟨hd1, segs1, ordered, lay, done, e1, hf, h1, h2, h3, rfl⟩ := save_ok_unfold hs hok
   rw [hh] at e1; cases e1
   obtain ⟨_, eobj, _, _⟩ := saveTail_ok hok
@@ -661,7 +663,7 @@ theorem save_twice_runs {o : Obj} {os : OStream} {r : SaveRes} {hd : Bytes}
     rw [this, looseSpec_getElem?_member _ _ _ 0 _ i (by rw [Nat.zero_add]; exact hmem)]
   obtain ⟨lay2E, k3, lkE⟩ := segRun_resave_run (acc := []) run hFL hrunR hlk0
   simp only [List.nil_append] at k3
-  constructor
+  refine ⟨?_, ?_, ?_⟩
   · -- D. the second save, rebuilt from its phases
     have hsave := save_of_parts (o := T.obj) (os := os) (segs1 := putBack segs1 done) (ordered := done)
       (lay := lay2E) (done := done) ehdr hf
@@ -689,6 +691,14 @@ theorem save_twice_runs {o : Obj} {os : OStream} {r : SaveRes} {hd : Bytes}
     have hgen := hgenE g ((hperm.mem_iff).2 hg) idx hi
     rw [esecs, hFL.2 _ hgen] at hb
     exact hPE _ b hgen hb hnn
+  · -- every segment has been laid out
+    intro g' hg'
+    rw [esegs, putBack_eq_map] at hg'
+    obtain ⟨g, hg, rfl⟩ := List.mem_map.1 hg'
+    obtain ⟨k, hk, hkd, e⟩ := hbackk g hg
+    obtain ⟨ss, st, ef⟩ := (All2.getElem? hfin).2 k g _ hk (List.getElem?_eq_getElem hkd)
+    rw [e, ef]
+    exact (segFinish_fields _ _ _ _).2.2.2.2.1
 
 /-! ### a Bool-valued sufficient condition -/
 
